@@ -158,6 +158,16 @@ class Alignment:
                             rs.remove(same_name[0])
                             cs.remove(c)
                             changed = True
+                    # same short name on both sides (two `Local`s whose modules were renamed): the field names tell them apart
+                    for c in list(cs):
+                        fn_c = [tuple(n for n, _ in v) for v in cur[c]['variants']]
+                        same = [r for r in rs if r.split('::')[-1] == c.split('::')[-1] and [tuple(n for n, _ in v) for v in ref[r]['variants']] == fn_c]
+                        if len(same) == 1 and sum(1 for c2 in cs if c2.split('::')[-1] == c.split('::')[-1] and
+                                                  [tuple(n for n, _ in v) for v in cur[c2]['variants']] == fn_c) == 1:
+                            self.adt[c] = same[0]
+                            rs.remove(same[0])
+                            cs.remove(c)
+                            changed = True
                     if len(cs) == 1 and len(rs) == 1:
                         self.adt[cs[0]] = rs[0]
                         changed = True
